@@ -1,10 +1,11 @@
 SPECIFICATION Spec
 CONSTANTS
-  Eps = {5, 20, 50, 80}
+  Eps = {5, 10, 20, 50, 80}
   Pas = {0, 1, 2, 3, 4, 5, 6, 7}
   Laws = {"gauss", "exp", "sersic"}
   Fixes = {"none", "center", "pa", "eps"}
   Modes = {"bilinear", "nearest", "linear_growth", "maxrit"}
   Frames = {"square", "wide", "tall"}
+  Starts = {"near", "perp"}
   Emit = TRUE
 CHECK_DEADLOCK FALSE
